@@ -34,12 +34,29 @@ import (
 
 func zzNoInit() {}
 
+// zzBigUint64 replaces (*big.Int).Uint64: the symbolic block number for the number objects of the stored header
+// records, the real result (low word of the magnitude) for every other value.
+func zzBigUint64(x *big.Int) uint64 {
+	for i, r := range zzRecords {
+		if r != nil && r.Header.Number == x {
+			return zzNumbers[i]
+		}
+	}
+	b := x.Bits()
+	if len(b) == 0 {
+		return 0
+	}
+	return uint64(b[0])
+}
+
 // ---- recorders -----------------------------------------------------------------------------
 
 var (
 	zzRecords   [4]*hseth.HeaderWithDifficultySum // stored header records by token
 	zzProof     *ETHProof                         // what the relayer's proof bytes decode to
 	zzProofBad  bool                              // the proof bytes are not well-formed JSON
+	zzProofSeen bool
+	zzNumbers   [4]uint64 // block numbers of the stored header records
 	zzVerCalls  int
 	zzVerHeader *hseth.Header
 	zzVerProof  *ETHProof
@@ -60,8 +77,15 @@ func zzJSONUnmarshal(data []byte, v interface{}) error {
 		*t = *zzRecords[data[0]]
 		return nil
 	case *ETHProof:
+		// the relayer's proof bytes: not well-formed, or an object with 0..2 storage proofs
+		zzProofSeen = true
+		zzProofBad = zzsym.Bool("proof-malformed")
 		if zzProofBad {
 			return errors.New("zz: malformed proof")
+		}
+		zzProof = &ETHProof{Address: "0x00"}
+		for i := zzsym.Choose("storage-proofs", 3); i > 0; i-- {
+			zzProof.StorageProofs = append(zzProof.StorageProofs, StorageProof{Key: "0x01"})
 		}
 		*t = *zzProof
 		return nil
@@ -104,7 +128,11 @@ func zzHash(token byte) []byte {
 // zzRecord: stored header record `token` with the given number; its state root is symbolic and tagged with
 // the token so that records can be told apart.
 func zzRecord(db *storage.CacheDB, chain uint64, token byte, number uint64) {
-	h := hseth.Header{Number: new(big.Int).SetUint64(number), Difficulty: big.NewInt(1)}
+	// the number object is a placeholder: the code under test reads it through (*big.Int).Uint64 only, which
+	// zzBigUint64 answers with the symbolic number (the engine's big.Int model goes through bv2int/int2bv, on which
+	// z3 times out)
+	zzNumbers[token] = number
+	h := hseth.Header{Number: big.NewInt(1000 + int64(token)), Difficulty: big.NewInt(1)}
 	copy(h.Root[:], zzsym.Bytes("root", 32))
 	h.Root[0] = token
 	zzRecords[token] = &hseth.HeaderWithDifficultySum{Header: h, DifficultySum: big.NewInt(1)}
@@ -134,6 +162,7 @@ func zzSetup() *zzCase {
 	for i := range zzRecords {
 		zzRecords[i] = nil
 	}
+	zzProofSeen, zzProofBad, zzProof = false, false, nil
 	zzVerCalls, zzChkCalls, zzVerHeader, zzVerProof, zzVerAddr, zzVerResult, zzChkResult, zzChkValue = 0, 0, nil, nil, nil, nil, nil, nil
 	c := &zzCase{db: zzNewCacheDB(), chain: 2}
 	c.best = zzsym.U64("best")
@@ -173,13 +202,6 @@ func zzSetup() *zzCase {
 	zzCanonical(c.db, c.chain+1, uint64(c.height), 3)
 	zzPut(c.db, utils.GetUint64Bytes(c.best), []byte(hscom.CURRENT_HEADER_HEIGHT), utils.GetUint64Bytes(c.chain+1))
 
-	// the relayer's proof object
-	zzProofBad = zzsym.Bool("proof-malformed")
-	zzProof = &ETHProof{Address: "0x00"}
-	for i := zzsym.Choose("storage-proofs", 3); i > 0; i-- {
-		zzProof.StorageProofs = append(zzProof.StorageProofs, StorageProof{Key: "0x01"})
-	}
-
 	// the message: a well-formed MakeTxParam or a truncated one
 	c.param = &scom.MakeTxParam{TxHash: zzsym.Bytes("txhash", 2), CrossChainID: zzsym.Bytes("ccid", 2), FromContractAddress: zzsym.Bytes("from", 2),
 		ToChainID: zzsym.U64("tochain"), ToContractAddress: zzsym.Bytes("to", 2), Method: "unlock", Args: zzsym.Bytes("args", 3)}
@@ -202,12 +224,13 @@ func (c *zzCase) run() (*scom.MakeTxParam, error) {
 
 // zzDepthRule: the confirmation-depth rule of the property, on the true (64-bit) heights.
 func (c *zzCase) depthRule() bool {
-	return c.best >= uint64(c.height) && c.best-uint64(c.height)+1 >= c.blocksToWait
+	// bestHeight-height+1 >= BlocksToWait, written without the +1 so that it cannot wrap (BlocksToWait >= 1)
+	return c.best >= uint64(c.height) && c.best-uint64(c.height) >= c.blocksToWait-1
 }
 
 func (c *zzCase) checkAccepted(got *scom.MakeTxParam) {
 	zzsym.Assert(c.haveHeader, "accepted deposit: the light client has a canonical header at the claimed height")
-	zzsym.Assert(!zzProofBad && len(zzProof.StorageProofs) == 1, "accepted deposit: the proof object is well-formed and has exactly one storage proof")
+	zzsym.Assert(zzProofSeen && !zzProofBad && zzProof != nil && len(zzProof.StorageProofs) == 1, "accepted deposit: the proof object is well-formed and has exactly one storage proof")
 	zzsym.Assert(zzVerCalls == 1 && zzVerProof != nil && len(zzVerProof.StorageProofs) == 1, "accepted deposit: the proof verifier ran once on the relayer's proof")
 	if zzVerCalls != 1 || !c.haveHeader {
 		return
@@ -236,7 +259,7 @@ func ZZ_C23_EthDepositGlue() {
 	}
 	zzsym.Cover("rejected")
 	// completeness of the glue (heights within 32 bits): every condition of the property holds => accepted
-	if c.best < 1<<32 && c.depthRule() && c.haveHeader && !zzProofBad && len(zzProof.StorageProofs) == 1 && c.extraOK {
+	if c.best < 1<<32 && c.depthRule() && c.haveHeader && c.extraOK && zzProofSeen && !zzProofBad && len(zzProof.StorageProofs) == 1 {
 		zzsym.Assert(zzVerCalls == 1 && (zzVerResult == nil || (zzChkCalls == 1 && !zzChkOK)), "a confirmed deposit is rejected only because the proof verifier or the value-hash check said no")
 		zzsym.Cover("rejected-by-proof")
 	}
@@ -260,19 +283,3 @@ func ZZ_C23_EthBlocksToWaitRange() {
 	}
 }
 
-func ZZ_C23_Dbg1() {
-	db := zzNewCacheDB()
-	ns := zzNative(db, nil)
-	btw := zzsym.U64("blocksToWait")
-	side_chain_manager.PutSideChain(ns, &side_chain_manager.SideChain{ChainId: 2, Router: 2, Name: "evm", BlocksToWait: btw, CCMCAddress: zzsym.Bytes("ccmc", 20)})
-	zzsym.Cover("a")
-	sc, err := side_chain_manager.GetSideChain(ns, 2)
-	zzsym.Assert(err == nil && sc.BlocksToWait == btw, "dbg")
-	zzsym.Cover("b")
-}
-
-func ZZ_C23_Dbg2() {
-	c := zzSetup()
-	zzsym.Cover("a")
-	_ = c
-}
